@@ -180,7 +180,12 @@ def eval_script(cx: H11.Ctx, case: dict[str, Any], tmp: str) -> None:
                 cx.broke("suggest", "stored value: code %r / model %s" % (stored, m["readBack"]))
         src_ok = m["br"] in ("single", "relative") or (m["br"] == "fixed" and contained) or (m["br"] == "independent" and member(d, indep) is None)
         if m["br"] != "reused" and src_ok:
-            why = member(d, got)
+            shown = got
+            if isinstance(d, OD.IntDistribution) and isinstance(got, float) and got.is_integer():
+                # the script drives Trial._suggest directly; the public suggest_int hands int(<that value>) to the objective
+                # (an enqueued 0.0 for an int parameter reaches it as 0)
+                shown = int(got)
+            why = member(d, shown)
             if why is not None:
                 cx.viol("outside-domain", "suggest(%r, %r) = %r via %s: %s" % (name, d, got, m["br"], why))
     if len(branches) >= 2:
